@@ -121,9 +121,21 @@ Lemma run_steps_ok steps : forall s queues prev sf qf,
   /\ Forall (fun st => st_sample st <= dealt (rs sf)) steps
   /\ Forall (fun st => Forall resp_ok (st_resps st)) steps.
 Proof.
-  induction steps as [|st steps IH]; intros s queues prev sf qf H I Hprev; simpl in H.
+  induction steps as [|st steps IH]; intros s queues prev sf qf H I Hprev; cbn [run_steps] in H.
   - injection H as <- <-. split; [assumption|]. split; [lia|]. split; [reflexivity|]. split; constructor.
-  - destruct (resume cidx0 s (st_t st) (st_env st) (lookup [] (st_t st) queues)) as [[[s1 qu] resps] ls] eqn:Er.
+  - destruct (ekind_eqb (st_kind st) KHold).
+    { (* a step during which the commit is held inside the engine *)
+      destruct (seq_all_ok 64 s I) as (I2 & D2).
+      match type of H with (if ?c then _ else _) = _ => destruct c eqn:Ec; [|discriminate] end.
+      repeat (apply andb_true_iff in Ec; destruct Ec as [Ec ?]).
+      apply N.leb_le in H0, H1.
+      pose proof (committed_le_dealt _ I2) as Hcd.
+      destruct (IH _ _ _ _ _ H I2 ltac:(lia)) as (If & Df & Mf & Sf & Rf).
+      split; [assumption|]. split; [lia|]. split; [|split].
+      - simpl. rewrite Mf. apply andb_true_iff. split; [apply N.leb_le; lia|reflexivity].
+      - constructor; [lia|exact Sf].
+      - constructor; [|exact Rf]. destruct (st_resps st); [constructor|discriminate]. }
+    destruct (resume cidx0 s (st_t st) (st_env st) (lookup [] (st_t st) queues)) as [[[s1 qu] resps] ls] eqn:Er.
     destruct (resume_ok _ _ _ _ _ _ _ _ Er I) as (I1 & D1 & R1).
     destruct (seq_all_ok 64 s1 I1) as (I2 & D2).
     match type of H with (if ?c then _ else _) = _ => destruct c eqn:Ec; [|discriminate] end.
@@ -251,9 +263,15 @@ Qed.
 Lemma run_steps_P steps : forall s queues prev sf qf,
   run_steps cidx0 s queues prev steps = Some (sf, qf) -> P s -> P sf.
 Proof.
-  induction steps as [|st steps IH]; intros s queues prev sf qf H Ps; simpl in H.
+  induction steps as [|st steps IH]; intros s queues prev sf qf H Ps; cbn [run_steps] in H.
   - injection H as <- _. exact Ps.
-  - destruct (resume cidx0 s (st_t st) (st_env st) (lookup [] (st_t st) queues)) as [[[s1 qu] resps] ls] eqn:Er.
+  - assert (Hseq : forall n s1, P s1 -> P (seq_all cidx0 n s1)).
+    { induction n as [|n IHn]; intros s1 P1; simpl; [exact P1|].
+      destruct (enabled s1 LSeqTake); [apply IHn, Pstep, P1|exact P1]. }
+    destruct (ekind_eqb (st_kind st) KHold).
+    { match type of H with (if ?c then _ else _) = _ => destruct c; [|discriminate] end.
+      eapply IH; [exact H|]. apply Hseq, Ps. }
+    destruct (resume cidx0 s (st_t st) (st_env st) (lookup [] (st_t st) queues)) as [[[s1 qu] resps] ls] eqn:Er.
     match type of H with (if ?c then _ else _) = _ => destruct c; [|discriminate] end.
     eapply IH; [exact H|].
     assert (P1 : P s1).
@@ -261,9 +279,7 @@ Proof.
       - destruct (run_local cidx0 resume_fuel _ _ _ _) as [[[s2 qu2] ac2] ls2] eqn:E2.
         injection Er as <- _ _ _. eapply run_local_P; [exact E2|apply Pstep, Ps].
       - eapply run_local_P; eauto. }
-    clear -P1 Pstep. generalize 64%nat. intros n. revert s1 P1.
-    induction n as [|n IHn]; intros s1 P1; simpl; [exact P1|].
-    destruct (enabled s1 LSeqTake); [apply IHn, Pstep, P1|exact P1].
+    apply Hseq, P1.
 Qed.
 End Carry.
 
@@ -278,7 +294,7 @@ Proof.
   pose proof (sched_valid_wf c V) as W.
   set (store0 := store_of (sc_init c)) in *.
   assert (Pf : kinv sf /\ reqinv sf /\ chaininv store0 sf).
-  { apply (run_steps_P (sc_cidx0 c) (fun s => kinv s /\ reqinv s /\ chaininv store0 s)) with (5 := Er).
+  { refine (run_steps_P (sc_cidx0 c) (fun s => kinv s /\ reqinv s /\ chaininv store0 s) _ _ _ _ _ _ _ Er _).
     - intros s l (A & B & C). split; [apply kinv_step, A|split; [apply reqinv_step, B|apply chaininv_step; assumption]].
     - split; [apply kinv_init, W|split; [intros t; exact Logic.I|constructor; simpl; auto]]. }
   destruct Pf as (_ & _ & [Him Hch]).
